@@ -84,19 +84,11 @@ func (b *payPerInterval) OnUpdate(node store.Node, peers []store.Node) (store.Ba
 
 	total := new(big.Int)
 	for _, peer := range peers {
-		b.Store.AddNodeBalance(peer.ID, credit)
-		total.Add(total, credit)
-	}
-
-	// If this comparison is in the wrong place, it could make the pool
-	// insolvent. On the other hand, if we compare too early, then the client
-	// could get into a loop where it disconnects due to low balance, connects
-	// successfully, repeat.
-	if b.MinBalance != nil && b.MinBalance.Cmp(total) > 0 {
-		return store.Balance{}, LowBalanceError{
-			CurrentBalance: total,
-			MinBalance:     b.MinBalance,
+		if err := b.Store.AddNodeBalance(peer.ID, credit); err != nil {
+			// Only bill for credit that was actually given.
+			continue
 		}
+		total.Add(total, credit)
 	}
 
 	if err := b.Store.AddNodeBalance(node.ID, new(big.Int).Neg(total)); err != nil {
@@ -107,5 +99,18 @@ func (b *payPerInterval) OnUpdate(node store.Node, peers []store.Node) (store.Ba
 		return balance, err
 	}
 
-	return b.Store.GetNodeBalance(node.ID)
+	// The minimum is compared against the spendable balance after this
+	// update's charge. If this comparison happened before the debit, the hosts
+	// would be credited without the client ever paying for it.
+	if b.MinBalance != nil {
+		current := new(big.Int).Add(&balance.Credit, &balance.Deposit)
+		if b.MinBalance.Cmp(current) > 0 {
+			return store.Balance{}, LowBalanceError{
+				CurrentBalance: current,
+				MinBalance:     b.MinBalance,
+			}
+		}
+	}
+
+	return balance, nil
 }
